@@ -41,7 +41,13 @@ BuilderRandom ==
 BuilderLimit ==
   Cross2(<< 1, 4, 5 >>, << 65534, 65535, 65536 >>, LAMBDA t, n : BuilderSession(<< WT(t), WP(Fill(n, t)), [m |-> "Validate"], [m |-> "Build"] >>, TRUE, "payload-limit"))
   \o << BuilderSession(<< WP(Fill(65535, 9)), WKT(7, 4), [m |-> "Build"], WP(Fill(65535, 3)), [m |-> "Build"] >>, TRUE, "payload-limit") >>
-BuilderVecs == BuilderLimit \o BuilderExhaustive(1) \o BuilderExhaustive(2) \o (IF Thorough THEN BuilderExhaustive(3) ELSE << >>) \o BuilderRandom
+\* one builder used for several certificates in a row (what it built earlier is kept and looked at again after every later call)
+KTs == << << 7, 4 >>, << 11, 0 >>, << 8, 4 >>, << 0, 0 >>, << 7, 0 >>, << 1, 4 >>, << 11, 4 >> >>
+BuilderReuse ==
+  Cross2(KTs, KTs, LAMBDA a, b : BuilderSession(<< WKT(a[1], a[2]), [m |-> "Build"], WKT(b[1], b[2]), [m |-> "Build"], WT(1), WP(Fill(40, 1)), [m |-> "Build"], WKT(a[1], a[2]), [m |-> "Build"] >>,
+                                                TRUE, "reuse"))
+  \o SeqMap(LAMBDA a : BuilderSession(<< WT(3), WP(Fill(40, 1)), [m |-> "Build"], WKT(a[1], a[2]), [m |-> "Build"], WP(<< 0, 11, 0, 0 >>), [m |-> "Build"] >>, FALSE, "reuse"), KTs)
+BuilderVecs == BuilderReuse \o BuilderLimit \o BuilderExhaustive(1) \o BuilderExhaustive(2) \o (IF Thorough THEN BuilderExhaustive(3) ELSE << >>) \o BuilderRandom
 
 (******************************* fixed-size values *************************)
 FixedSession(fn, n) ==
@@ -70,7 +76,11 @@ RInfoSession(na, nadd) ==
   [ops |-> << New("RouterInfo", [id |-> RIId, st |-> 7, pub8 |-> pub8, addrs |-> addrs, peers |-> 0, opts |-> RIOpts, sig |-> RISig,
                                   in |-> RIId \o pub8 \o << na >> \o Flatten(addrs) \o << 0 >> \o SerMapping(RIOpts) \o RISig]) >>
            \o [i \in 1..nadd |-> Call("RouterInfo", [m |-> "AddAddress", a |-> AddrA(na + i)], TRUE, "from" \o ToString(na))]]
-RInfoVecs == << RInfoSession(0, 3), RInfoSession(2, 2), RInfoSession(253, 4) >> \o (IF Thorough THEN << RInfoSession(255, 2), RInfoSession(0, 257) >> ELSE << >>)
+\* AddAddress called on plain struct copies of the session's RouterInfo (the copy becomes the session's object; the original is kept)
+RInfoCopySession(na, nadd) ==
+  LET base == RInfoSession(na, nadd) IN
+  [ops |-> [i \in 1..Len(base.ops) |-> IF i = 1 THEN base.ops[1] ELSE [base.ops[i] EXCEPT !.c = @ @@ [oncopy |-> i % 2 = 0], !.cls = "copy-from" \o ToString(na)]]]
+RInfoVecs == << RInfoSession(0, 3), RInfoSession(2, 2), RInfoSession(253, 4), RInfoCopySession(1, 4), RInfoCopySession(0, 3) >> \o (IF Thorough THEN << RInfoSession(255, 2), RInfoSession(0, 257) >> ELSE << >>)
 
 Vecs == BuilderVecs \o FixedVecs \o MValsVecs \o RInfoVecs
 VARIABLE done
